@@ -195,6 +195,9 @@ func settleGoroutines(base int) int {
 // timeout + slack is abandoned (its goroutine is left behind) and reported as hung
 var hung = 0
 
+// goroutines left behind so far (each may be spinning): after a handful the run stops adding more
+var leaks = 0
+
 func describeBounded(addr string, timeout int) (*knxnet.DescriptionRes, error, bool) {
 	type out struct {
 		res *knxnet.DescriptionRes
@@ -202,6 +205,11 @@ func describeBounded(addr string, timeout int) (*knxnet.DescriptionRes, error, b
 	}
 	ch := make(chan out, 1)
 	go func() {
+		defer func() {
+			if p := recover(); p != nil {
+				ch <- out{nil, fmt.Errorf("the call panicked: %v", p)}
+			}
+		}()
 		res, err := knx.DescribeTunnel(addr, time.Duration(timeout)*time.Millisecond)
 		ch <- out{res, err}
 	}()
@@ -221,6 +229,11 @@ func discoverBounded(addr string, timeout int) ([]*knxnet.SearchRes, error, bool
 	}
 	ch := make(chan out, 1)
 	go func() {
+		defer func() {
+			if p := recover(); p != nil {
+				ch <- out{nil, fmt.Errorf("the call panicked: %v", p)}
+			}
+		}()
 		res, err := knx.Discover(addr, time.Duration(timeout)*time.Millisecond)
 		ch <- out{res, err}
 	}()
@@ -241,7 +254,7 @@ func expectDescribe(timeout int, s []arrival) string {
 			continue
 		}
 		var svc knxnet.Service
-		if _, err := knxnet.Unpack(a.data, &svc); err != nil {
+		if _, err := oracleUnpack(a.data, &svc); err != nil {
 			continue
 		}
 		if d, ok := svc.(*knxnet.DescriptionRes); ok {
@@ -258,7 +271,7 @@ func expectDiscover(timeout int, s []arrival) string {
 			continue
 		}
 		var svc knxnet.Service
-		if _, err := knxnet.Unpack(a.data, &svc); err != nil {
+		if _, err := oracleUnpack(a.data, &svc); err != nil {
 			continue
 		}
 		if d, ok := svc.(*knxnet.SearchRes); ok {
@@ -359,7 +372,7 @@ func (r *run) c20describe(budget int) {
 		}
 		r.classes["describe-dead-port"]++
 	}
-	for i := 0; i < budget && hung < 3; i++ {
+	for i := 0; i < budget && hung < 3 && leaks < 6; i++ {
 		timeout := r.g.Pick(1, 2, 5, 20, 50, 100, 150, 200, 300, 500)
 		s := r.script(timeout, r.descrRes, r.searchRes)
 		op := fmt.Sprintf("desc %d %s", timeout, scriptText(s))
@@ -384,7 +397,7 @@ func (r *run) c20describe(budget int) {
 				r.violation("describe-request-count", op, fmt.Sprintf("%d datagrams reached the server", len(o.requests)))
 			} else {
 				var svc knxnet.Service
-				_, err := knxnet.Unpack(o.requests[0], &svc)
+				_, err := oracleUnpack(o.requests[0], &svc)
 				req, ok := svc.(*knxnet.DescriptionReq)
 				if err != nil || !ok {
 					r.violation("describe-request-malformed", op, ktext.Hex(o.requests[0]))
@@ -405,6 +418,7 @@ func (r *run) c20describe(budget int) {
 			if n := settleGoroutines(base); n > base {
 				r.violation("describe-goroutine-left", op, fmt.Sprintf("%d goroutines after the return, %d before", n, base)+stacks())
 				base = n
+				leaks++
 			}
 			if seen[o.text] >= 2 || (try == 0 && len(s) == 0) {
 				break
@@ -558,7 +572,7 @@ func (r *run) c20discover(budget int) {
 	base := quiesce()
 	r.c20discoverErrors(base)
 	port := 20000 + r.g.R.Intn(20000)
-	for i := 0; i < budget && hung < 3; i++ {
+	for i := 0; i < budget && hung < 3 && leaks < 6; i++ {
 		port++
 		timeout := r.g.Pick(1, 5, 50, 100, 150, 200, 300, 500)
 		nresp := r.g.Pick(0, 1, 2, 3, 5, 20)
@@ -606,6 +620,7 @@ func (r *run) c20discover(budget int) {
 			if n := settleGoroutines(base); n > base {
 				r.violation("discover-goroutine-left", op, fmt.Sprintf("%d goroutines after the return, %d before", n, base)+stacks())
 				base = n
+				leaks++
 			}
 			if seen[text] >= 2 || (try == 0 && len(s) == 0) {
 				break
@@ -681,7 +696,7 @@ func (r *run) c20discoverErrors(base int) {
 func (r *run) c20discoverFlood(rounds int) {
 	base := quiesce()
 	port := 41000 + r.g.R.Intn(10000)
-	for i := 0; i < rounds && hung < 3; i++ {
+	for i := 0; i < rounds && hung < 3 && leaks < 6; i++ {
 		port++
 		timeout := r.g.Pick(10, 20, 30, 50)
 		group := net.IPv4(239, 23, 12, byte(1+port%200))
